@@ -42,14 +42,16 @@ class CacheLock:
 
         try:
             self.cache_lock = portalocker.Lock(self.cache_lock_filename, timeout=1)
+            self.cache_lock.acquire()
         except portalocker.exceptions.LockException:
             raise CacheException(f"Could not lock cache using {self.cache_lock_filename}")
-        pass
 
     def __exit__(self, exc_type, exc_value, traceback):
-        if self.write_time:
-            _write_last_cached_time(self.current_timestamp, self.cache_folder)
-        self.cache_lock.release()
+        try:
+            if self.write_time:
+                _write_last_cached_time(self.current_timestamp, self.cache_folder)
+        finally:
+            self.cache_lock.release()
 
 
 def _read_last_cached_time(cache_folder):
